@@ -48,6 +48,8 @@ APPENDIX = [
     "{% comment %}{% endraw %}{% endcomment %}", "{% comment %}{% raw %}{% endcomment %}", "{%- comment -%}a{%- endcomment ~%}",
     "{% comment %}{% endcommentx -%}", "{% comment %}{%endcomment", "{% comment %}{% endcomment a %} %}",
     "ab{# c #}{{ x }}", "ab{% # c %}{{ x }}", "{# a #}{# b #}c", "{% raw %}{{ x }}{% endraw %}",
+    "{% raw %}a{% endraw %}b{{ c }}", "x{%- raw -%}{{ y }}{%- endraw -%}z{% if %}", "{% raw %}{% endraw %}{% raw %}{% endraw %}",
+    "{# a #}b{# c #}{{ d }}{% # e %}f", "{%- # x -%}{%- # y -%}", "{% comment %}a{% endcomment %}{% comment %}b{% endcomment %}c",
     "{%- raw +%}a{%~ endraw -%}", "{% raw %}{% endraw %}", "{% raw x %}a{% endraw %}", "{% rawx %}",
     "Hello, {{ you }}!", "{{ x }}\n{{ y }}\n", "\u00e9\u2028{{ x }}\r\n", "{{ x }}\U0001F600{% y %}",
 ]
